@@ -184,3 +184,29 @@ Theorem C03_checker_warm_caches : forall s ws,
   chk_C03 s (api_tree s ws) = 0.
 Proof. exact ChkMoreWarmC03.C03_warm_checker. Qed.
 Print Assumptions C03_checker_warm_caches.
+
+(* (ix) BOTH combined-map leaves AND CachedSource nodes in any sound warm state (the union of the
+   classes of C03_trees_combined_leaves and C03_trees_with_warm_caches): text-carrying stream,
+   text-less stream and map() all attribute as the freshly built cache-free tree.  tiny2: the
+   input-side bound that also covers the inner map's tables and numbers *)
+From RS Require Proofs.WarmCombBounds Proofs.WarmCombDefs Proofs.WarmCombMain.
+Theorem C03_trees_combined_leaves_and_warm_caches : forall s,
+  ColdCache.ids_distinct s -> Checkers.ChkHist.k2_shape s = false ->
+  CombLeafTree.rshape2 (ColdCache.uncache s) = true -> treeA s = true ->
+  rsmall (ColdCache.uncache s) = true -> WarmCombBounds.tiny2 (ColdCache.uncache s) = true ->
+  forall st c, WarmCombDefs.Sound2 st s ->
+  attr_of_map (fst (map_of st s c)) (source s) c = WarmCombMain.reference2 s c /\
+  WarmCombDefs.Sound2 (snd (map_of st s c)) s.
+Proof. exact WarmCombMain.warm_map2. Qed.
+Print Assumptions C03_trees_combined_leaves_and_warm_caches.
+
+Theorem C03_final_vs_text_combined_and_warm : forall s,
+  ColdCache.ids_distinct s -> Checkers.ChkHist.k2_shape s = false ->
+  CombLeafTree.rshape2 (ColdCache.uncache s) = true -> treeA s = true ->
+  rsmall (ColdCache.uncache s) = true -> WarmCombBounds.tiny2 (ColdCache.uncache s) = true ->
+  forall st c, WarmCombDefs.Sound2 st s ->
+  let '(evs, gi, st') := stream st s (mkOpts c true) in
+  gi = advance 1 0 (source s) /\
+  attr_of_final_events evs (source s) c = WarmCombMain.reference2 s c /\ WarmCombDefs.Sound2 st' s.
+Proof. exact WarmCombMain.warm_final2. Qed.
+Print Assumptions C03_final_vs_text_combined_and_warm.
